@@ -43,6 +43,8 @@ type fakeSession struct {
 	closed           bool
 	writes           []message.RpcMessage
 	onWrite          func(s *fakeSession, m message.RpcMessage)
+	failNext         int // the next failNext writes fail (write timeout / full buffer) while the session stays open
+	attempts         int // WritePkg calls, failed ones included
 	attrs            sync.Map
 }
 
@@ -73,6 +75,12 @@ func (s *fakeSession) WritePkg(pkg interface{}, timeout time.Duration) (int, int
 		return 0, 0, fmt.Errorf("not an RpcMessage")
 	}
 	s.mu.Lock()
+	s.attempts++
+	if s.failNext > 0 {
+		s.failNext--
+		s.mu.Unlock()
+		return 0, 0, fmt.Errorf("write tcp %s: i/o timeout", s.addr)
+	}
 	s.writes = append(s.writes, m)
 	cb := s.onWrite
 	s.mu.Unlock()
@@ -80,6 +88,11 @@ func (s *fakeSession) WritePkg(pkg interface{}, timeout time.Duration) (int, int
 		cb(s, m)
 	}
 	return 1, 1, nil
+}
+func (s *fakeSession) nAttempts() int {
+	s.mu.Lock()
+	defer s.mu.Unlock()
+	return s.attempts
 }
 func (s *fakeSession) nWrites() int {
 	s.mu.Lock()
@@ -100,6 +113,7 @@ type Event struct {
 	Nil    bool   `json:"nil,omitempty"`
 	Pick   int    `json:"pick,omitempty"`
 	Oracle string `json:"oracle,omitempty"`
+	Via    string `json:"via,omitempty"` // integrated path: the request type that was sent
 }
 
 type History struct {
@@ -332,6 +346,8 @@ type CEvent struct {
 	Addr   string   `json:"addr"`              // address of the session the event is about
 	Sent   []string `json:"sent"`              // requests written as a consequence: "TM" | "RM:<resource ids>" | other type names
 	Sess   int      `json:"sess"`              // session they were written on (0: none)
+	WriteFail bool  `json:"write_fail,omitempty"` // reconnect: the first write on the new session fails while it is open
+	Open   bool     `json:"open"`              // the event's session is open once the event has settled
 	Per    int      `json:"per"`               // VerifServerSessions(addr) after the event: entries recorded under the address
 	All    int      `json:"all"`               // ... and size of the registry used for selection
 	// reconnect events: the property evaluated on the real run
@@ -469,6 +485,11 @@ func runClientHistory(r *hutil.Rng, script []string) CHistory {
 				}
 			}
 		}
+		if !ev.Open {
+			// the session did not survive its own opening (OnOpen released it again): there is
+			// no established session to speak of; getty reconnects
+			return
+		}
 		if !hasTM {
 			missing = append(missing, "RegisterTMRequest")
 		}
@@ -482,7 +503,10 @@ func runClientHistory(r *hutil.Rng, script []string) CHistory {
 			ev.Pred = []string{"reconnect.rm-reannounce"} // a resource was registered before the connection was lost
 		}
 		if len(missing) > 0 {
-			ev.Oracle = fmt.Sprintf("after the connection was (re-)established the new session %d to %s did not carry: %s", ev.Sess, ev.Addr, strings.Join(missing, ", "))
+			ev.Oracle = fmt.Sprintf("after the connection was (re-)established the new session %d to %s is open and registered (%d in the registry) but did not carry: %s", ev.Sess, ev.Addr, ev.All, strings.Join(missing, ", "))
+			if ev.WriteFail {
+				ev.Oracle += " (its first write failed and nothing retried)"
+			}
 			if !hasTM {
 				ev.Pred = nil // a missing RegisterTM is not what the finding lists
 			}
@@ -518,6 +542,7 @@ func runClientHistory(r *hutil.Rng, script []string) CHistory {
 				ev.Sent = sentOf(cur, before)
 				registered = append(registered, name)
 			}
+			ev.Open = !cur.IsClosed()
 			counts(&ev)
 			h.Events = append(h.Events, ev)
 		case strings.HasPrefix(k, "lost"):
@@ -529,41 +554,62 @@ func runClientHistory(r *hutil.Rng, script []string) CHistory {
 			if ev.ByPeer {
 				s.Close() // the peer went away: getty finds the session closed and then tells the listener
 			}
-			if r.Chance(1, 2) {
+			switch r.Intn(3) {
+			case 0:
 				ev.Via = "OnError"
+			case 1:
+				ev.Via = "OnError+OnClose" // what getty does on a read error: the listener hears both
 			}
 			hutil.Guard(5*time.Second, func() error {
-				if ev.Via == "OnClose" {
-					handler.OnClose(s)
-				} else {
+				if ev.Via != "OnClose" {
 					handler.OnError(s, fmt.Errorf("connection reset by peer"))
+				}
+				if ev.Via != "OnError" {
+					handler.OnClose(s)
 				}
 				return nil
 			})
 			connected = false
+			ev.Open = !s.IsClosed()
 			counts(&ev)
 			h.Events = append(h.Events, ev)
 		case strings.HasPrefix(k, "reconnect"):
 			if connected {
 				continue
 			}
-			if k == "reconnect:other" {
+			if strings.HasPrefix(k, "reconnect:other") {
 				addrIdx = (addrIdx + 1 + r.Intn(len(clientAddrs)-1)) % len(clientAddrs)
 			}
 			sid++
 			cur = &fakeSession{id: sid, addr: clientAddrs[addrIdx], onWrite: answer}
 			s := cur
+			ev := CEvent{K: "reconnect", Sess: s.id, Addr: s.addr, WriteFail: strings.HasSuffix(k, ":fail")}
+			if ev.WriteFail {
+				s.failNext = 1 // write timeout / full buffer on the fresh connection; the session stays open
+			}
 			class, detail := hutil.Guard(5*time.Second, func() error { return handler.OnOpen(s) })
-			ev := CEvent{K: "reconnect", Sess: s.id, Addr: s.addr}
 			if class != hutil.OutOK {
 				ev.Sent = []string{"<<" + class + ": " + firstLine(detail) + ">>"}
+			} else if ev.WriteFail {
+				// wait for the attempt, then for what OnOpen does about the failure
+				dl := time.Now().Add(8 * time.Second)
+				for time.Now().Before(dl) && s.nAttempts() < 1 {
+					time.Sleep(2 * time.Millisecond)
+				}
+				dl = time.Now().Add(250 * time.Millisecond)
+				for time.Now().Before(dl) && !s.IsClosed() {
+					time.Sleep(2 * time.Millisecond)
+				}
+				time.Sleep(15 * time.Millisecond)
+				ev.Sent = sentOf(s, 0)
 			} else {
 				waitWrites(s, 1+len(registered), 250*time.Millisecond)
 				ev.Sent = sentOf(s, 0)
 			}
-			connected = true
-			check(&ev, len(h.Events))
+			ev.Open = !s.IsClosed()
+			connected = ev.Open
 			counts(&ev)
+			check(&ev, len(h.Events))
 			h.Events = append(h.Events, ev)
 		}
 	}
@@ -588,30 +634,124 @@ func genScript(r *hutil.Rng, i int) []string {
 			"lost:peer", "reconnect:same", "lost:peer", "reconnect:same",
 			"lost:open", "reconnect:other", "lost:open", "reconnect:other",
 			"lost:peer", "reconnect:other", "lost:peer", "reconnect:other",
-			"lost:peer", "reconnect:same", "lost:open", "reconnect:same", "lost:peer", "reconnect:other", "lost:peer", "reconnect:same"}
+			"lost:peer", "reconnect:same", "lost:open", "reconnect:same", "lost:peer", "reconnect:other", "lost:peer", "reconnect:same",
+			// the first write on the fresh connection fails while the session is open; getty reconnects
+			"lost:peer", "reconnect:same:fail", "reconnect:same",
+			"lost:open", "reconnect:other:fail", "reconnect:same:fail", "reconnect:same"}
 	case 1:
 		return []string{"resource", "lost:peer", "reconnect:same"} // the refutation witness of the model
 	case 2:
 		return []string{"resource", "resource", "lost:open", "reconnect:same", "lost:peer", "reconnect:other"}
 	case 3:
-		return []string{"lost:peer", "reconnect:same", "resource", "lost:open", "reconnect:other"}
+		return []string{"lost:peer", "reconnect:same", "resource", "lost:open", "reconnect:other:fail", "reconnect:same"}
 	}
 	n := 3 + r.Intn(7)
 	var s []string
 	lost := []string{"lost:open", "lost:peer"}
-	rec := []string{"reconnect:same", "reconnect:same", "reconnect:other"}
+	rec := []string{"reconnect:same", "reconnect:same", "reconnect:other", "reconnect:same:fail"}
 	for j := 0; j < n; j++ {
 		switch r.Intn(5) {
 		case 0, 1:
 			s = append(s, "resource")
 		default:
-			s = append(s, lost[r.Intn(2)], rec[r.Intn(3)])
+			s = append(s, lost[r.Intn(2)], rec[r.Intn(4)], "reconnect:same")
 		}
 	}
 	return s
 }
 
+// ---------------------------------------------------------------- integrated selection path
+// Requests carrying an xid go through the REAL GettyRemotingClient.SendAsyncRequest ->
+// SessionManager.selectSession -> loadbalance.Select with the configured policy XID, over
+// sessions registered through the real OnOpen. Recorded as a selection history (same shape
+// as the direct ones) so that the same model and the same oracle judge it.
+
+func xidRequest(r *hutil.Rng, xid string) (interface{}, string) {
+	switch r.Intn(6) {
+	case 0:
+		return message.GlobalCommitRequest{AbstractGlobalEndRequest: message.AbstractGlobalEndRequest{Xid: xid}}, "GlobalCommitRequest"
+	case 1:
+		return message.GlobalRollbackRequest{AbstractGlobalEndRequest: message.AbstractGlobalEndRequest{Xid: xid}}, "GlobalRollbackRequest"
+	case 2:
+		return message.BranchRegisterRequest{Xid: xid, ResourceId: "res", LockKey: "t:1"}, "BranchRegisterRequest"
+	case 3:
+		return message.BranchReportRequest{Xid: xid, BranchId: 7, ResourceId: "res"}, "BranchReportRequest"
+	case 4:
+		return message.GlobalStatusRequest{AbstractGlobalEndRequest: message.AbstractGlobalEndRequest{Xid: xid}}, "GlobalStatusRequest"
+	default:
+		return message.GlobalReportRequest{AbstractGlobalEndRequest: message.AbstractGlobalEndRequest{Xid: xid}}, "GlobalReportRequest"
+	}
+}
+
+func runIntegrated(r *hutil.Rng, nsend int) History {
+	initClient()
+	h := History{Hash: map[string]uint32{}, BadAt: -1, Feat: []string{"integrated"}, Index: -1}
+	handler := getty.GetGettyClientHandlerInstance()
+	addrs := []string{"10.0.0.1:8091", "10.0.0.1:809", "10.0.0.2:8091", "10.0.0.10:8091"}
+	var reg []*regEntry
+	for i, a := range addrs[:2+r.Intn(3)] {
+		s := &fakeSession{id: 5001 + i, addr: a, onWrite: answer}
+		hutil.Guard(5*time.Second, func() error { return handler.OnOpen(s) })
+		reg = append(reg, &regEntry{s: s})
+		h.Events = append(h.Events, Event{K: "open", ID: s.id, Addr: hx(a)})
+	}
+	// let the RegisterTM goroutines of OnOpen finish (they are routed by the balancer too)
+	time.Sleep(60 * time.Millisecond)
+	for i := 0; i < nsend; i++ {
+		target := reg[r.Intn(len(reg))]
+		xid := target.s.addr + ":" + fmt.Sprint(r.Next()%1000000)
+		if r.Chance(1, 8) {
+			xid = "10.9.9.9:8091:" + fmt.Sprint(r.Intn(1000)) // no session there: any open one
+		}
+		req, name := xidRequest(r, xid)
+		before := make([]int, len(reg))
+		for j, e := range reg {
+			before[j] = e.s.nWrites()
+		}
+		ev := Event{K: "select", Policy: "XID", Xid: hx(xid), Class: hutil.OutOK, Via: name}
+		class, detail := hutil.Guard(6*time.Second, func() error { return getty.GetGettyRemotingClient().SendAsyncRequest(req) })
+		if class != hutil.OutOK {
+			ev.Class = class
+			ev.Oracle = "SendAsyncRequest(" + name + ") " + class + ": " + firstLine(detail)
+		} else {
+			var got *fakeSession
+			for j, e := range reg {
+				if e.s.nWrites() > before[j] {
+					got = e.s
+				}
+			}
+			if got == nil {
+				ev.Nil = true
+				ev.Oracle = "the request was written on no session although open sessions are registered"
+			} else {
+				ev.Pick = got.id
+				parts := strings.Split(xid, ":")
+				want := parts[0] + ":" + parts[1]
+				has := false
+				for _, e := range reg {
+					if e.s.addr == want {
+						has = true
+					}
+				}
+				if has && got.addr != want {
+					ev.Oracle = fmt.Sprintf("XID policy through SendAsyncRequest/selectSession: %s with xid %q was written on the session connected to %s although an open session to %s is registered", name, xid, got.addr, want)
+				}
+			}
+		}
+		if ev.Oracle != "" && h.Oracle == "" {
+			h.Oracle, h.BadAt = ev.Oracle, len(h.Events)
+		}
+		h.Events = append(h.Events, ev)
+	}
+	for _, e := range reg {
+		s := e.s
+		hutil.Guard(5*time.Second, func() error { handler.OnClose(s); return nil })
+	}
+	return h
+}
+
 type Result struct {
+	Integrated []History `json:"integrated"`
 	Histories []History  `json:"histories"`
 	Client    []CHistory `json:"client"`
 	Selects   int        `json:"selects"`
@@ -652,6 +792,7 @@ func Run(a map[string]string) {
 			script = append(script, []string{"lost:open", "lost:peer"}[r.Intn(2)], []string{"reconnect:same", "reconnect:other"}[r.Intn(2)])
 		}
 		res.Client = append(res.Client, runClientHistory(r, script))
+		res.Integrated = append(res.Integrated, runIntegrated(root.Fork(910000), hutil.ArgInt(a, "nint", 40)))
 	}
 	hutil.WriteJSON(a["out"], res)
 }
